@@ -1,5 +1,6 @@
 // core.cpp — run context, fault handlers, recording memory manager, libc interposition, main()
 #include "vh.h"
+#include <clocale>
 #include <fcntl.h>
 #include <sys/stat.h>
 #include <fstream>
@@ -81,6 +82,9 @@ int main(int argc,char**argv){
   g.thorough=!strcmp(arg_value(argc,argv,"--tier","quick"),"thorough");
   g.pair=atoi(arg_value(argc,argv,"--pair","0"))!=0;
   install_fault_handlers();
+  // the process runs under a UTF-8 locale: what the library accepts, classifies or converts must not depend on LC_CTYPE (a <ctype.h> /
+  // <wctype.h> classification of a code point above 127 would differ from the "C" locale's)
+  { const char*loc=getenv("VH_LOCALE"); if(!setlocale(LC_ALL, loc? loc : "C.utf8")) setlocale(LC_ALL,"C.UTF-8"); }
   for(auto&d:drivers()) if(!strcmp(d.name,argv[1])){
     const char*out=arg_value(argc,argv,"--out",nullptr); if(out) g.open(out,arg_value(argc,argv,"--stream",argv[1]),atoi(arg_value(argc,argv,"--shards","16")));
     int rc=d.fn(argc,argv); if(out) g.close(); return rc; }
